@@ -613,6 +613,32 @@ pub fn run(ctx: &Ctx) {
         }
     }
 
+    // (ii') the same generators with a logger installed at Trace level (whatever the decoder logs about a rejected text -
+    // a preview, a count - must not change the verdict or panic), after a reader and a writer panicked inside
+    // Frame::read / Frame::write
+    crate::props::c15::panic_inside_io();
+    crate::engine::with_logging(|| {
+        run_generated(ctx, "grammar+logging", ctx.tier.pick(150_000, 2_000_000), grammar_strategy, |c, st| {
+            crate::props::c15::panic_inside_io_sometimes();
+            check_bytes(&c.bytes, st, false)
+        });
+        run_generated(
+            ctx,
+            "random-bytes+logging",
+            ctx.tier.pick(60_000, 600_000),
+            || {
+                // long texts with multi-byte and invalid UTF-8 sequences at every alignment
+                (proptest::collection::vec(prop_oneof![3 => 0x20u8..0x7F, 1 => any::<u8>(), 1 => Just(0xFFu8), 1 => Just(0xE2u8), 1 => Just(0x82u8), 1 => Just(0xACu8)], 0..200), any::<bool>()).prop_map(|(mut bytes, colon)| {
+                    if colon {
+                        bytes.insert(0, b':');
+                    }
+                    BytesCase { bytes }
+                })
+            },
+            |c, st| check_bytes(&c.bytes, st, false),
+        );
+    });
+
     // (iii) plain random bytes (cheap totality check; almost always "invalid-far")
     run_generated(
         ctx,
@@ -623,7 +649,11 @@ pub fn run(ctx: &Ctx) {
     );
 }
 
-pub fn replay(_part: &str, case: &Value) -> Result<(), String> {
+pub fn replay(part: &str, case: &Value) -> Result<(), String> {
+    if part.ends_with("+logging") {
+        crate::props::c15::panic_inside_io();
+        return crate::engine::with_logging(|| replay("", case));
+    }
     let mut st = Stats::new();
     if let (Some(pairs), Some(len_field)) = (case.get("pairs").and_then(|v| v.as_u64()), case.get("length_field").and_then(|v| v.as_u64())) {
         let pairs = pairs as usize;
